@@ -257,6 +257,49 @@ func checkC08(e *Env) {
 		mu.Unlock()
 	})
 
+	// the reverse map under other runtime settings: every index of every language validated in
+	// a fresh process started with a GOMAXPROCS that does not divide 2048 (a table built in
+	// parallel chunks, or sized from the CPU count, must still hold every word)
+	underSettings := 0
+	procsList := []int{3, 5, 6, 7, 12}
+	if e.Thorough() {
+		procsList = []int{3, 5, 6, 7, 9, 10, 11, 12, 13, 14, 15, 24, 31, 48, 100}
+	}
+	parallel(len(procsList), e.Workers, func(pi int) {
+		P := procsList[pi]
+		r := rng.New(e.Seed, "C08-procs-"+itoa(P))
+		var ops []plan.Op
+		for lang := 0; lang < ref.NLang; lang++ {
+			for next := 0; next < 2048; next += 23 {
+				first := make([]int, 23)
+				for i := range first {
+					first[i] = (next + i) % 2048
+				}
+				idx := ref.Indices(entropyFromIndices(32, first, r.Intn(8)))
+				words := make([]string, len(idx))
+				for j, v := range idx {
+					words[j] = e.Model.List[lang][v]
+				}
+				ops = append(ops, plan.Op{I: len(ops), Fn: "chk", L: int64(lang), S: hxs(strings.Join(words, " "))})
+			}
+		}
+		env := []string{"GOMAXPROCS=" + itoa(P), "VERIF_ENVTAG=GOMAXPROCS=" + itoa(P)}
+		res, died := e.RunProc(drv, ops, env, 0)
+		if died != "" {
+			return // a crash is not C08's subject
+		}
+		for i := range res {
+			if res[i].Err != nil && errClassOf(res[i].Err) == "other" {
+				e.Violate(&Violation{What: fmt.Sprintf("in a process started with GOMAXPROCS=%d a sentence of 24 %s list words with a correct checksum is rejected with %q: validation does not know a list word", P, ref.Names[ops[i].L], errText(res[i].Err)),
+					Ops: []plan.Op{ops[i]}, ChildEnv: env, Expected: ref.OK.String(), Observed: res[i]})
+				return
+			}
+		}
+		mu.Lock()
+		underSettings += len(res) * 23
+		mu.Unlock()
+	})
+
 	// the concurrent flavour of this monitor (C12 is the full treatment)
 	ambiguousConc := newCounter()
 	concCalls := e.concurrentSmoke(drv, "C08", append(e.smokePool("C08", "chk"), e.smokePool("C08", "enc")...), e.pick(4, 12), e.pick(200, 1000), e.smokeListWords(ambiguousConc))
